@@ -7,10 +7,10 @@ from ..translate import gen_keywords, gen_ident_dialect
 
 TRUSTED = [
     "Coq 8.16.1 kernel (coqc, vm_compute); no axioms: every theorem is 'Closed under the global context'",
-    "translators vplib/translate/gen_keywords.py (keyword arrays, is_keyword / sql_keywords shape, valid_ident regex -> character classes, translate_ident_part shape; sqlparser's reserved lists and SQLite's own keyword table through harness c09_kw) and gen_ident_dialect.py (quote char / quoting style per dialect, generator prefixes, shape of the three collision-avoidance sites); fail closed",
+    "translators vplib/translate/gen_keywords.py (keyword arrays, is_keyword / sql_keywords shape, valid_ident regex -> character classes, translate_ident_part shape; sqlparser's reserved lists and SQLite's own keyword table through harness c09_kw) and gen_ident_dialect.py (quote char / quoting style per dialect, generator prefixes; code text -- comments, string contents and #[cfg(prqlc_verif)] hook items blanked -- of gen_table_name, assign_names incl. the reserved set, RelVarNameAssigner, ensure_column_name, the anchor_split step, translate_select_item's alias loop; inventory of every call of the two generators and every use of reserved_table_names in prqlc/src); fail closed",
     "Model/Escape.v: hand model of sqlparser 0.60 Ident Display (EscapeQuotedString), validated exhaustively on short strings (harness `escape`)",
     "Model/SqlLex.v + Model/Ident.v reading side: standard quoted identifiers (quote doubled) and bare words; validated on SQLite by execution; MySQL/BigQuery backtick rules, case folding of the ten non-executable engines are from documentation only (upper-folding engines other than snowflake are outside the theorem)",
-    "Model/NameGen.v: hand model of NameGenerator and of the loops in assign_names / RelVarNameAssigner / anchor_split; which names reach those loops in a real compilation is observed end-to-end only",
+    "Model/NameGen.v: hand model of NameGenerator and of every place that draws from it; compared with the inputs / outputs of every real call of those places (hooks verif:namegen, verif:pq-names, verif:ensure_column_name, verif:select_item of /repo, read through harness `log`) for the programs of the end-to-end stream; Rust's str::to_lowercase is a parameter of the model (`lower`): the runs and the instances use ASCII lower-casing, the theorems hold for every function that leaves generated names unchanged; the state of the table-name generator is not logged and is chained from event to event (nothing draws from it before assign_names); the alias of a wrapped sub-query (gen_query.rs -> gen_table_name) has no event and is observed end-to-end only",
     "end-to-end reference results are computed in python from the inserted marker values for a fixed set of program skeletons",
     "harness (prqlc::compile, rusqlite bundled SQLite) and python comparison code",
 ]
@@ -333,6 +333,14 @@ def run():
             # an unnamed sub-pipeline as join operand: needs a generated CTE name (assign_names)
             src = "from %s | join (from %s | select {%s, %s} | take 4) (==%s) | select {%s.%s, %s}" % (fromT, tU, c(K), c(C2), bt(K), refT, bt(C1), c(C2))
             exp = [(a[C1], b[C2]) for a in rt for b in ru if a[K] == b[K]]
+        elif skeleton == "append-sub":
+            # both operands need ORDER BY / LIMIT, so each is wrapped: SELECT * FROM (...) AS <AnchorContext::gen_table_name>
+            src = "from %s | select {%s, %s} | sort %s | take 3 | append (from %s | select {%s, %s} | sort %s | take 2)" % (fromT, c(C1), c(C2), c(C1), tU, c(C1), c(C2), c(C1))
+            exp = [(r[C1], r[C2]) for r in srt(rt, C1)[:3]] + [(r[C1], r[C2]) for r in srt(ru, C1)[:2]]
+        elif skeleton == "append-sub-split":
+            src = ("from %s | select {%s, %s} | sort %s | take 3 | append (from %s | select {%s, %s} | sort %s | take 2) | sort %s | take 4 | filter %s != null"
+                   % (fromT, c(C1), c(C2), c(C1), tU, c(C1), c(C2), c(C1), c(C2), c(C1)))
+            exp = sorted([(r[C1], r[C2]) for r in srt(rt, C1)[:3]] + [(r[C1], r[C2]) for r in srt(ru, C1)[:2]], key=lambda x: x[1])[:4]
         elif skeleton == "group":
             src = "from %s | group {%s} (aggregate {n = sum %s}) | select {%s, n}" % (fromT, c(C1), c(C2), c(C1))
             exp = [(r[C1], r[C2]) for r in rt]
@@ -347,6 +355,16 @@ def run():
             src = "from %s | join %s (==%s) | select {%s} | take 4 | filter %s" % (fromT, joinU, bt(K), sel, flt)
             vals = lambda a, b: [a[dup], b[dup]] + [a[u] for u in ucols]
             exp = [tuple(vals(a, b)[i] for i in perm) for a in rt for b in ru if a[K] == b[K]]
+        elif skeleton == "dup-final-perm":
+            # the same select list as split-dup-perm WITHOUT a split: translate_select_item invents an alias for the duplicate
+            # (fix 755de8e: regenerated until it differs from every column name in use); the user's columns must keep their
+            # names in the result and be the only columns of that name
+            items = ["%s.%s" % (refT, bt(dup)), "%s.%s" % (refU, bt(dup))] + ["%s.%s" % (refT, bt(u)) for u in ucols]
+            sel = ", ".join(items[i] for i in perm)
+            src = "from %s | join %s (==%s) | select {%s}" % (fromT, joinU, bt(K), sel)
+            vals = lambda a, b: [a[dup], b[dup]] + [a[u] for u in ucols]
+            exp = [tuple(vals(a, b)[i] for i in perm) for a in rt for b in ru if a[K] == b[K]]
+            name_at = {pos: ucols[i - 2] for pos, i in enumerate(perm) if i >= 2}
         elif skeleton == "split-dup":
             # two columns with the same name at a split (the join key of both sides) next to a column named C1
             src = "from %s | join %s (==%s) | select {%s.%s, %s.%s, %s.%s} | take 4 | filter %s > 0 | select {%s}" % (
@@ -354,10 +372,10 @@ def run():
             exp = [(a[C1],) for a in rt]
         else:
             raise ValueError(skeleton)
-        tests.append({"src": src, "setup": setup, "expected": sorted(exp), "names": [n for n in (T, U, alias_t, alias_u, K, C1, C2, C3) if n], "skeleton": skeleton, "position": position,
+        tests.append({"src": src, "setup": setup, "expected": sorted(exp), "name_at": name_at if skeleton == "dup-final-perm" else None, "names": [n for n in (T, U, alias_t, alias_u, K, C1, C2, C3) if n], "skeleton": skeleton, "position": position,
                       "cols": [K, C1, C2, C3], "tables": [T, U, alias_t, alias_u]})
 
-    SKELS = ["select", "split1", "split1-declared", "split2", "split3", "sortexpr", "join", "join-split", "group", "selfjoin", "join-sub", "join-selfjoin"]
+    SKELS = ["select", "split1", "split1-declared", "split2", "split3", "sortexpr", "join", "join-split", "group", "selfjoin", "join-sub", "join-selfjoin", "append-sub", "append-sub-split"]
     for i, n in enumerate(names + kw_names):
         av = {fold(n)}
         T, U, K, C1, C2, C3 = distinct_names(["tt", "uu", "kk", "p", "q", "r"], av)
@@ -394,7 +412,7 @@ def run():
     variants = [tp[:-2].lower() + tp[-2:].upper() + "0", tp.capitalize() + "1", tp.upper() + "0", tp.upper() + "2"]
     for vi, vn in enumerate(variants):
         other = variants[(vi + 1) % len(variants)]
-        for sk in ("split3", "split2", "selfjoin", "join-selfjoin", "join-sub", "join-split"):
+        for sk in ("split3", "split2", "selfjoin", "join-selfjoin", "join-sub", "join-split", "append-sub", "append-sub-split"):
             add_test(sk, "table", vn, "u", None, None, "k", "a", "b", "c")
             add_test(sk, "table", vn, other, None, None, "k", "a", "b", "c")
             add_test(sk, "alias", "t", "u", vn, None, "k", "a", "b", "c")
@@ -416,6 +434,7 @@ def run():
             for pm in perms:
                 if dupcol == "k":
                     add_test("split-dup-perm", "generated-like", "t", "u", None, None, "k", ucols[0], "b" if len(ucols) < 2 else ucols[1], "c" if len(ucols) < 3 else ucols[2], perm=pm, ucols=ucols, dup="k")
+                    add_test("dup-final-perm", "generated-like", "t", "u", None, None, "k", ucols[0], "b" if len(ucols) < 2 else ucols[1], "c" if len(ucols) < 3 else ucols[2], perm=pm, ucols=ucols, dup="k")
                 elif len(ucols) <= 2:
                     add_test("split-dup-perm", "generated-like", "t", "u", None, None, "k", ucols[0], "b", "c" if len(ucols) < 2 else ucols[1], perm=pm, ucols=ucols, dup="b")
     for c1 in (cp + "0", cp + "1", "a", cp + "2"):
@@ -459,6 +478,13 @@ def run():
             # (correctly quoted) outer reference "true" falls back to a string literal.  Same SQL is right on the standard.
             ck.stat("e2e-sqlite", "sqlite-quirk(column named true/false through a sub-query)")
             continue
+        if t["name_at"] and got == [tuple(x) for x in t["expected"]]:
+            rc = r.get("cols", [])
+            bad = [(pos, nm) for pos, nm in t["name_at"].items() if pos >= len(rc) or rc[pos] != nm or rc.count(nm) != 1]
+            if bad:
+                case["result_columns"] = rc
+                ck.disagreement("names %s: the result columns are %s; the user's column(s) %s must keep their name and be the only ones called so" % (t["names"], rc, [nm for _, nm in bad]), case, cl_names)
+                continue
         if got != [tuple(x) for x in t["expected"]]:
             case["got"] = got[:6]; case["expected"] = t["expected"][:6]
             ck.disagreement("names %s: the query returns %s, the named objects hold %s" % (t["names"], got[:3], t["expected"][:3]), case, cl_names)
@@ -496,7 +522,7 @@ def run():
         evs = []
         for m in msgs:
             head, _, body = m.partition(" ")
-            if head in ("verif:namegen", "verif:pq-names", "verif:ensure_column_name", "verif:ensure_column_name_result"):
+            if head in ("verif:namegen", "verif:pq-names", "verif:ensure_column_name", "verif:ensure_column_name_result", "verif:select_item", "verif:select_items"):
                 try:
                     evs.append((head[len("verif:"):], json.loads(body)))
                 except ValueError:
@@ -515,7 +541,26 @@ def run():
         tn = 0          # state of the table-name generator: nothing draws from it before assign_names
         col_n = None    # state of the column-name generator, as the last ensure_column_name_result reported it
         pending = None
+        # translate_select_item's invented aliases: `used` = column_names.values() at that moment = what the enclosing
+        # translate_select_items call saw at its start (its event follows those of its items) + the items named before
+        group = []
         for h, e in evs:
+            if h == "select_item":
+                group.append(e)
+            elif h == "select_items":
+                names_now = {c: nm for c, nm in e["in"]["column_names"]}
+                for it in group:
+                    if it["expected"] is None and it["item"] != "unnamed":
+                        n0 = idx_of(it["gen_before"], cp)
+                        expr = "select_item_alias col_prefix %s %d" % (lst(sorted(names_now.values())), n0)
+                        ev_cases.setdefault(expr, ((it["item"]["alias"], idx_of(it["gen_after"], cp)), "select_item", tests[i]["src"]))
+                        ck.stat("namegen-model", "select_item/alias" + ("" if it["item"]["alias"] == it["gen_before"] else "-regenerated"))
+                    if it["name_after"] is not None:
+                        names_now[it["cid"]] = it["name_after"]
+                group = []
+        for h, e in evs:
+            if h in ("select_item", "select_items"):
+                continue
             n_events += 1
             if h == "ensure_column_name":
                 pending = e
@@ -547,7 +592,7 @@ def run():
     try:
         HN = ("From Coq Require Import List NArith.\nFrom PV Require Import Lib.ListX Model.Ident Model.NameGen Gen.GenIdentDialect.\n"
               "Import ListNotations.\nLocal Open Scope N_scope.\n")
-        groups = {"ensure_column_name": [], "anchor_split": [], "table": []}
+        groups = {"ensure_column_name": [], "anchor_split": [], "table": [], "select_item": []}
         for expr, (exp, site, src) in ev_cases.items():
             groups["table" if site in ("assign_names", "relvar") else site].append((expr, exp, site, src))
         B = 60
@@ -562,6 +607,9 @@ def run():
                 ck.count("namegen-model", expr)
                 if g == "ensure_column_name":
                     got = (name_of(v[0]), v[1])
+                    ok = got == tuple(exp)
+                elif g == "select_item":
+                    got = (s_of(v[1][0]), v[1][1]) if isinstance(v, tuple) and v[0] == "Some" else "<loop did not end>"
                     ok = got == tuple(exp)
                 elif g == "anchor_split":
                     got = name_of(v[1][0]) if isinstance(v, tuple) and v[0] == "Some" else "<loop did not end>"
